@@ -53,6 +53,8 @@ def run(ctx):
     space = detspace.Space(3, 3, rng.randrange(1 << 30), canonical=True)
     E, psi = space.rspt("mp", max_order)
     detspace.certify(ctx, "C05", [("mp", space.seed)], max_order)
+    isr_explicit.certify_ortho(ctx, "C05", space, psi, E, variants,
+                               max_order)
     dmat = [[(numeric._h(space.seed, "d", p, q) % 1999 - 999)
              for q in range(space.n)] for p in range(space.n)]
     model = make_model(space, psi, dmat)
